@@ -406,6 +406,7 @@ func runC09(c *Ctx) {
 		}
 		c.AtLeast("R5", "removals in cleanupTmp", n, 1)
 	}
+	tempCleanupAgeRule(c, "R5")
 }
 
 var c09Canaries = []Canary{
